@@ -256,13 +256,15 @@ def pick_winner(ctx, cfg, fs):
         a0 = provenance(b, c.args[0], c.bb, 'term', through=DEFAULT_THROUGH + [r'slice::<impl \[T\]>::iter$']); a1 = provenance(b, c.args[1], c.bb, 'term', through=DEFAULT_THROUGH + [r'slice::<impl \[T\]>::iter$'])
         order_ok = all(q.kind == 'param' and q.what == 'self' for q in a0) and all(q.kind == 'param' and q.what == 'other' for q in a1) and bool(a0) and bool(a1)
     good = False
-    for i, k, st in b.stmts():
-        if st['k'] == 'assign' and st['lhs'] == [0, []] and st['rv']['k'] == 'agg' and st['rv']['agg'] == 'tuple':
-            f0 = provenance(b, st['rv']['fields'][0], i, k, through=None)
+    # the answer is built in the loop body, or in the closure handed to map / map_or after a find
+    for x in fam:
+      for i, k, st in x.stmts():
+        if st['k'] == 'assign' and st['lhs'] == [0, []] and st['rv']['k'] == 'agg' and st['rv']['agg'] == 'tuple' and x.local_ty(0) == b.local_ty(0):
+            f0 = provenance(x, st['rv']['fields'][0], i, k, through=None)
             if f0 and all(r.kind == 'call' and r.call.is_(r'ItemState::parsed$') for r in f0):
                 who = set()
                 for r in f0:
-                    for q in provenance(b, r.call.args[0], r.call.bb, 'term'):
+                    for q in provenance(x, r.call.args[0], r.call.bb, 'term'):
                         who.add(tuple(q.path[-2:]))
                 # pair = (index, (mine, theirs)): the state reported is component .1.0
                 good = who == {('1', '0')}
